@@ -207,6 +207,8 @@ def as_symbytes(x):
         return x
     if isinstance(x, SymArray):
         return x.tobytes()
+    if hasattr(x, "to_symbytes"):
+        return x.to_symbytes()
     return SymBytes([(b, 1, False) for b in builtins.bytes(x)])
 
 
@@ -215,7 +217,7 @@ class _BytesMeta(type):
         return isinstance(x, cls._real) or isinstance(x, SymBytes)
 
     def __call__(cls, *a, **k):
-        if a and isinstance(a[0], (SymBytes, SymArray)):
+        if a and (isinstance(a[0], (SymBytes, SymArray)) or hasattr(a[0], "to_symbytes")):
             return as_symbytes(a[0])
         if a and isinstance(a[0], list) and any(isinstance(v, SInt) for v in a[0]):
             return SymBytes([(v, 1, False) for v in a[0]])
